@@ -20,17 +20,20 @@ LifeVerdict(ev) ==
        ELSE IF ~FinalOK(run.f, owners1, {ev.life.extend[j] : j \in 1..Len(ev.life.extend)}) THEN "life-final"
        ELSE "ok"
 
+MV(ev) == IF "mv" \in DOMAIN ev THEN {ev.mv[j] : j \in 1..Len(ev.mv)} ELSE {}
+
 \* sequence of deviation kinds of one event (empty = conforms)
 Judge(ev) ==
     IF ev.op = "reset" THEN <<>>
-    ELSE IF ~StateOK(ev.kind, ev.cmp, ev.cap, ev.pre) THEN <<>>      \* unjudgeable, see header
-    ELSE IF ~Pre(ev.op, ev.o, ev.x, ev.pre, ev.cap, ev.cmp, ev.kind) THEN <<"harness-pre">>
+    ELSE IF ~StateOKmv(ev.kind, ev.cmp, ev.cap, ev.pre, MV(ev)) THEN <<>>      \* unjudgeable, see header
+    ELSE IF ~Pre(ev.op, ev.o, ev.x, ev.pre, ev.cap, ev.cmp, ev.kind, MV(ev)) THEN <<"harness-pre">>
     ELSE IF "crash" \in DOMAIN ev THEN <<"crash">>      \* a call inside the domain killed the process (no post-state)
-    ELSE IF ~PostState(ev.op, ev.o, ev.x, ev.pre, ev.cap, ev.cmp, ev.post) THEN <<"post">>
-    ELSE IF ~StateOK(ev.kind, ev.cmp, ev.cap, ev.post) THEN <<"sorted">>
-    ELSE (IF PostRet(ev.op, ev.o, ev.x, ev.pre, ev.cap, ev.cmp, ev.ret, ev.out) THEN <<>> ELSE <<"ret">>)
-         \o ObsBad(ev.obs, ev.post, ev.cmp, ev.cap, ev.univ)
-         \o (IF "life" \in DOMAIN ev /\ LifeVerdict(ev) # "ok" THEN <<LifeVerdict(ev)>> ELSE <<>>)
+    ELSE IF ~PostState(ev.op, ev.o, ev.x, ev.pre, ev.cap, ev.cmp, ev.post, MV(ev)) THEN <<"post">>
+    ELSE LET mv2 == MvAfter(ev.op, ev.o, ev.x, MV(ev)) IN
+         IF ~StateOKmv(ev.kind, ev.cmp, ev.cap, ev.post, mv2) THEN <<"sorted">>
+         ELSE (IF PostRet(ev.op, ev.o, ev.x, ev.pre, ev.cap, ev.cmp, ev.ret, ev.out, MV(ev)) THEN <<>> ELSE <<"ret">>)
+              \o ObsBad(ev.obs, ev.post, ev.cmp, ev.cap, ev.univ, mv2)
+              \o (IF "life" \in DOMAIN ev /\ LifeVerdict(ev) # "ok" THEN <<LifeVerdict(ev)>> ELSE <<>>)
 
 Expected(ev, v) ==
     IF v \in {"post", "ret", "crash"} THEN ToJson(Eff(ev.op, ev.o, ev.x, ev.pre, ev.cap, ev.cmp))
